@@ -9,6 +9,7 @@ import (
 	"strconv"
 	"strings"
 	"testing"
+	"time"
 
 	"pgregory.net/rapid"
 
@@ -30,6 +31,7 @@ type cliCase struct {
 	Ratio     float64
 	BatchSize int      `json:",omitempty"` // --batch-size of every run (0: default)
 	Runs      []cliRun // the first one is the reference
+	TimeoutS  int      `json:",omitempty"` // kill timer of one run in seconds (0: the default of run.Cmd, 60 s)
 }
 
 // fastaOf writes the data set the way obiuniq -m sample would.
@@ -192,7 +194,7 @@ func runClean(c cliCase, r cliRun, file string, head bool) (map[string]outRec, s
 	if r.Jitter != "" {
 		env = append(env, "VERIF_JITTER="+r.Jitter)
 	}
-	res := run.Cmd(run.Opt{Env: env}, "obiclean", args...)
+	res := run.Cmd(run.Opt{Env: env, Timeout: time.Duration(c.TimeoutS) * time.Second}, "obiclean", args...)
 	desc := "obiclean " + strings.Join(args[:len(args)-1], " ") + " <file>"
 	if r.Jitter != "" {
 		desc = "VERIF_JITTER=" + r.Jitter + " " + desc
@@ -266,8 +268,9 @@ func checkRecordConsistency(id string, r rec, o outRec) error {
 	return nil
 }
 
-// checkCLIModel compares the reference run at the defaults with the model.
-func checkCLIModel(c cliCase, out map[string]outRec) error {
+// checkCLIModel compares the reference run at the defaults with the model; one is
+// the one-difference predicate of the model (levOne on the small data sets).
+func checkCLIModel(c cliCase, out map[string]outRec, one func(a, b string) bool) error {
 	seqOf := map[string]string{}
 	for _, r := range c.Recs {
 		seqOf[r.Id] = r.Seq
@@ -275,7 +278,7 @@ func checkCLIModel(c cliCase, out map[string]outRec) error {
 	wantMut := map[string]map[string]bool{} // son -> fathers (any sample)
 	samples := refSamples(c.Recs)
 	for _, name := range sortedKeys(samples) {
-		g := refGraph(samples[name], levOne)
+		g := refGraph(samples[name], one)
 		for _, n := range samples[name] {
 			want := statusOf(len(g.Fathers[n.Id]), g.Sons[n.Id])
 			if got := out[n.Id].Status[name]; got != want {
@@ -312,7 +315,9 @@ func checkCLIModel(c cliCase, out map[string]outRec) error {
 	return nil
 }
 
-func checkCLI(c cliCase) error {
+func checkCLI(c cliCase) error { return checkCLIWith(c, levOne) }
+
+func checkCLIWith(c cliCase, one func(a, b string) bool) error {
 	if !run.Have("obiclean") {
 		return fmt.Errorf("the obiclean command was not built")
 	}
@@ -355,7 +360,7 @@ func checkCLI(c cliCase) error {
 		if k == 0 {
 			base, baseDesc = out, desc
 			if c.Dist == 1 && c.Ratio == 1.0 {
-				if err := checkCLIModel(c, out); err != nil {
+				if err := checkCLIModel(c, out, one); err != nil {
 					return fmt.Errorf("%s: %v", desc, err)
 				}
 			}
